@@ -15,33 +15,52 @@
 (*               "before" : (deviation) the stored zero is overwritten     *)
 (*                          before / during the search - TLC refutes       *)
 (*                          C02_FailureKeepsZero.                          *)
+(*   RestartRule = "once" : the search starts from the shot's CURRENT      *)
+(*                          elevation (stored zero plus hold-over); when a *)
+(*                          trial shot from an elevation that is not the   *)
+(*                          sight line's is stopped short of the zero      *)
+(*                          distance, the search starts over - once -      *)
+(*                          along the sight line; only a trial along the   *)
+(*                          sight line (or one after the restart) may end  *)
+(*                          the search with the range error                *)
+(*               "never"  : (deviation, the tree before c38d3cc) any trial *)
+(*                          that falls short ends the search - TLC refutes *)
+(*                          C02_RangeErrorOnlyAfterTheSightLineWasTried.   *)
 (***************************************************************************)
 EXTENDS ZeroFinderOps, TLC
-CONSTANTS MaxIter, StoreRule
+CONSTANTS MaxIter, StoreRule, RestartRule
 
-VARIABLES phase, iter, errOK, cand, stored, stored0
-vars == <<phase, iter, errOK, cand, stored, stored0>>
+VARIABLES phase, iter, errOK, cand, stored, stored0,
+          atSight,     \* the candidate elevation is the sight line's own (nothing stored, no hold-over; or after a restart)
+          restarts     \* how often the search has started over
+vars == <<phase, iter, errOK, cand, stored, stored0, atSight, restarts>>
 
 Init == /\ phase = "Idle" /\ iter = 0 /\ errOK = FALSE /\ cand = 0
         /\ stored = <<"old", 0>> /\ stored0 = stored      \* tokens are pairs <<kind, n>>
+        /\ atSight \in BOOLEAN /\ restarts = 0
 
 Begin == /\ phase = "Idle" /\ phase' = "Iterating"
          /\ stored' = IF StoreRule = "before" THEN <<"scratch", 0>> ELSE stored
-         /\ UNCHANGED <<iter, errOK, cand, stored0>>
+         /\ UNCHANGED <<iter, errOK, cand, stored0, atSight, restarts>>
 
 \* one trial trajectory with the current candidate: it may raise a range error, else it measures the error
 Trial ==
   /\ phase = "Iterating"
-  /\ \/ /\ phase' = "RangeErr" /\ UNCHANGED <<iter, errOK, cand>>
+  /\ \/ \* the trial shot is stopped short of the zero distance
+        IF RestartRule = "once" /\ ~atSight /\ restarts = 0
+        THEN /\ cand' = cand + 1 /\ atSight' = TRUE /\ restarts' = 1          \* start over along the sight line (no trial counted)
+             /\ UNCHANGED <<phase, iter, errOK>>
+        ELSE /\ phase' = "RangeErr" /\ UNCHANGED <<iter, errOK, cand, atSight, restarts>>
      \/ \E ok \in BOOLEAN :
           /\ errOK' = ok /\ iter' = iter + 1
           /\ phase' = NextPhase(ok, iter + 1, MaxIter)
           /\ cand' = IF ok THEN cand ELSE cand + 1          \* a new candidate elevation
+          /\ atSight' = (ok /\ atSight) /\ UNCHANGED restarts
   /\ UNCHANGED <<stored, stored0>>
 
 \* set_weapon_zero assigns the returned elevation to the weapon
 Store == /\ phase = "Returned" /\ stored # <<"zero", cand>>
-         /\ stored' = <<"zero", cand>> /\ UNCHANGED <<phase, iter, errOK, cand, stored0>>
+         /\ stored' = <<"zero", cand>> /\ UNCHANGED <<phase, iter, errOK, cand, stored0, atSight, restarts>>
 
 Next == Begin \/ Trial \/ Store
 Spec == Init /\ [][Next]_vars
@@ -50,5 +69,8 @@ C02_ReturnedMeetsAccuracy == phase = "Returned" => errOK
 C02_ErrorMeansNotMet == phase = "ZeroErr" => (~errOK /\ iter = MaxIter)
 C02_IterationCap == iter <= MaxIter
 C02_FailureKeepsZero == phase \in {"ZeroErr", "RangeErr"} => stored = stored0
+C02_AtMostOneRestart == restarts <= 1
+\* a search is given up for a trial shot that fell short only if the sight line's own elevation has been tried
+C02_RangeErrorOnlyAfterTheSightLineWasTried == phase = "RangeErr" => (atSight \/ restarts = 1)
 C02_StoreOnlyAfterReturn == [][stored' # stored => (phase = "Returned" \/ (StoreRule = "before" /\ phase = "Idle"))]_vars
 =============================================================================
